@@ -16,7 +16,8 @@ Inductive case :=
 | ZeroPkCase (honest : string) (sigb : string) (ok : bool)
 | AlgCase (sk c : Z) (ok : bool)
 | SkCase (v : Z) (ser : string)
-| IdCase (v : Z) (ser : string).
+| IdCase (v : Z) (ser : string)
+| HashCase (digest : string) (k : N) (hpoint sig negsig : string).   (* HashToPoint, Sign with a small key, Neg *)
 
 Fixpoint flip_bit (b : bytes) (bit : nat) : bytes :=
   match b with
@@ -48,6 +49,28 @@ Definition honest_sig (hb : bytes) : g1 := fst (sig_deserialize hb).
 Definition code_of (r : res g2) : N := match r with Ok _ => 0%N | Err e => err_code e end.
 Definition test_sig : g1 := G1Aff 1 2.
 
+Definition chk_zero (h sb : string) (ok : bool) : bool :=
+  let hb := unhex h in
+  eqbool (verify_sig (pairing_for some_pk (honest_sig hb)) (byte_to_pk (repeat 0%N 128))
+                     (fst (sig_deserialize (unhex sb)))) ok.
+(* exponent model with H(m) = h * g1 for an arbitrary non-zero h *)
+Definition chk_alg (sk c : Z) (ok : bool) : bool :=
+  let h := 1 + (sk * sk + 12345) mod (R - 1) in
+  eqbool (verify_exp R (pub_exp R sk) h (sign_exp R c h)) ok.
+Definition chk_sk (v : Z) (ser : string) : bool :=
+  bytes_eqb (sk_serialize (Z.to_N v)) (unhex ser) && (Z.of_N (sk_deserialize (unhex ser)) =? v).
+Definition chk_id (v : Z) (ser : string) : bool :=
+  match id_serialize (Z.to_N v) with
+  | Some b => bytes_eqb b (unhex ser) && (Z.of_N (id_deserialize (unhex ser)) =? v)
+  | None => false
+  end.
+(* HashToPoint, Sign with a small secret key (affine chord-and-tangent law), Neg *)
+Definition chk_hash (d : string) (k : N) (hp sg ng : string) : bool :=
+  let H := hash_to_g1 (unhex d) in
+  let S := g1_mul_nat (N.to_nat k) H in
+  bytes_eqb (g1_marshal H) (unhex hp) && sig_is_valid H &&
+  bytes_eqb (g1_marshal S) (unhex sg) && bytes_eqb (g1_marshal (g1_neg S)) (unhex ng).
+
 (* the direct evaluation of the model (slow: every on-curve test is two or three 256-bit modular
    multiplications by binary long division, and the code's repeated IsOnCurve calls are repeated) *)
 Definition check (c : case) : bool :=
@@ -72,21 +95,11 @@ Definition check (c : case) : bool :=
       bytes_eqb (g2_marshal (byte_to_pk b)) (unhex ser) &&
       eqbool (verify_sig (pairing_for (byte_to_pk hb) test_sig) (byte_to_pk b) test_sig) ok &&
       eqbool ok (bytes_eqb b hb)
-  | ZeroPkCase h sb ok =>
-      let hb := unhex h in
-      eqbool (verify_sig (pairing_for some_pk (honest_sig hb)) (byte_to_pk (repeat 0%N 128))
-                         (fst (sig_deserialize (unhex sb)))) ok
-  | AlgCase sk c ok =>
-      (* exponent model with H(m) = h * g1 for an arbitrary non-zero h *)
-      let h := 1 + (sk * sk + 12345) mod (R - 1) in
-      eqbool (verify_exp R (pub_exp R sk) h (sign_exp R c h)) ok
-  | SkCase v ser =>
-      bytes_eqb (sk_serialize (Z.to_N v)) (unhex ser) && (Z.of_N (sk_deserialize (unhex ser)) =? v)
-  | IdCase v ser =>
-      match id_serialize (Z.to_N v) with
-      | Some b => bytes_eqb b (unhex ser) && (Z.of_N (id_deserialize (unhex ser)) =? v)
-      | None => false
-      end
+  | ZeroPkCase h sb ok => chk_zero h sb ok
+  | AlgCase sk c ok => chk_alg sk c ok
+  | SkCase v ser => chk_sk v ser
+  | IdCase v ser => chk_id v ser
+  | HashCase d k hp sg ng => chk_hash d k hp sg ng
   end.
 
 (* what the cases files evaluate: one parse per candidate; the repeated curve tests and the parse of
@@ -119,7 +132,11 @@ Definition check_fast (c : case) : bool :=
       (code_of r =? perr)%N &&
       bytes_eqb (g2_marshal (match r with Ok v => v | Err _ => G2Nil end)) (unhex ser) &&
       eqbool (pk_verdict b hb r) ok && eqbool ok (bytes_eqb b hb)
-  | _ => check c
+  | ZeroPkCase h sb ok => chk_zero h sb ok
+  | AlgCase sk c ok => chk_alg sk c ok
+  | SkCase v ser => chk_sk v ser
+  | IdCase v ser => chk_id v ser
+  | HashCase d k hp sg ng => chk_hash d k hp sg ng
   end.
 
 Lemma eqbool_true a b : eqbool a b = true <-> a = b.
@@ -168,9 +185,10 @@ Proof.
 Qed.
 
 (* a passing fast check is a passing direct check *)
+Opaque chk_zero chk_alg chk_sk chk_id chk_hash.
 Theorem check_fast_sound c : check_fast c = true -> check c = true.
 Proof.
-  destruct c as [h cd [err nl valid ser ok] | h cd ok | h cd perr ser ok | | | |]; try (intro H; exact H).
+  destruct c as [h cd [err nl valid ser ok] | h cd ok | h cd perr ser ok | h sb ok | sk c ok | v ser | v ser | d k hp sg ng].
   - cbn [check_fast check]. set (hb := unhex h). set (b := cand_bytes hb cd).
     intro H. apply andb_true_iff in H as [Hok H]. apply bytes_okb_spec in Hok.
     assert (Hh : bytes_ok hb) by apply unhex_ok.
@@ -184,4 +202,10 @@ Proof.
   - cbn [check_fast check]. set (hb := unhex h). set (b := cand_bytes hb cd).
     intro H. apply andb_true_iff in H as [Hok H]. apply bytes_okb_spec in Hok.
     rewrite (pk_verdict_ok b hb Hok (unhex_ok h)). exact H.
+  - exact (fun H => H).
+  - exact (fun H => H).
+  - exact (fun H => H).
+  - exact (fun H => H).
+  - exact (fun H => H).
 Qed.
+Transparent chk_zero chk_alg chk_sk chk_id chk_hash.
